@@ -105,6 +105,13 @@ var variants []*kind
 
 // kindFor: the kind a script / replay names by (interceptor id, variant id)
 func kindFor(iid, vid int) *kind {
+	if vid >= optionBase {
+		for _, v := range optionKinds {
+			if v.id == iid && v.vid == vid {
+				return v
+			}
+		}
+	}
 	if vid != 0 {
 		for _, v := range variants {
 			if v.id == iid && v.vid == vid {
